@@ -614,7 +614,96 @@ func (e *shEnv) font(sf *shFont, maxLen int, full bool) {
 			return true
 		})
 	}
+	// threshold inputs: the shapers hold fixed-size scratch areas and limits (32 combining marks per run of marks,
+	// 5 runes of context); strings around these sizes, for every script pack whether the font covers it or not
+	// (the complex shaper is chosen by the script, the glyphs may all be .notdef)
+	if e.prop == "C01" && len(sf.file.Data) < 4<<20 {
+		for _, t := range shThresholdTexts() {
+			if r.Expired() {
+				break
+			}
+			n := len(t.text)
+			base := shCase{File: name, Face: sf.idx, Text: t.text, Start: 0, End: n, Script: t.script, Size: 16 << 6}
+			for d := 0; d < 2; d++ {
+				c := base
+				c.Dir = d
+				e.shape(&c)
+				c.API = 1
+				e.shape(&c)
+				c.Level = 1
+				e.shape(&c)
+			}
+			// a one-rune run with more than 5 runes of context on both sides, and the middle third
+			c := base
+			c.Start, c.End = n/2, n/2+1
+			e.shape(&c)
+			c.API = 1
+			e.shape(&c)
+			c.Start, c.End = n/3, 2*n/3
+			e.shape(&c)
+		}
+		r.Count("threshold_texts", 1)
+	}
 	r.Count("faces", 1)
+}
+
+type shLongText struct {
+	script string
+	text   []rune
+}
+
+var shThresholdCache []shLongText
+
+// shThresholdTexts: for every script pack, base + k x mark for k around the 32-mark limit (one mark repeated, two marks
+// alternating), and the pack repeated to 13 and 70 runes
+func shThresholdTexts() []shLongText {
+	if shThresholdCache != nil {
+		return shThresholdCache
+	}
+	var out []shLongText
+	packs := append([]shPack{{"Arab", []rune{0x0628, 0x0654, 0x0655, 0x06DC, 0x064E}}, {"Syrc", []rune{0x0712, 0x0730, 0x0654}}}, shPacks...)
+	for _, pk := range packs {
+		var base rune
+		var marks []rune
+		for _, ru := range pk.runes {
+			if unicode.Is(unicode.Mn, ru) {
+				marks = append(marks, ru)
+			} else if base == 0 {
+				base = ru
+			}
+		}
+		if base == 0 {
+			continue
+		}
+		for i, m := range marks {
+			if i >= 3 {
+				break
+			}
+			for _, k := range []int{31, 32, 33, 40} {
+				t := []rune{base}
+				for j := 0; j < k; j++ {
+					t = append(t, m)
+				}
+				out = append(out, shLongText{pk.script, append(t, base)})
+			}
+			if i+1 < len(marks) {
+				t := []rune{base}
+				for j := 0; j < 34; j++ {
+					t = append(t, m, marks[i+1])
+				}
+				out = append(out, shLongText{pk.script, t})
+			}
+		}
+		for _, n := range []int{13, 70} {
+			var t []rune
+			for j := 0; j < n; j++ {
+				t = append(t, pk.runes[j%len(pk.runes)])
+			}
+			out = append(out, shLongText{pk.script, t})
+		}
+	}
+	shThresholdCache = out
+	return out
 }
 
 // ---- driver -------------------------------------------------------------------------------------------
